@@ -356,7 +356,7 @@ func c08Templates(c *Ctx, r *Result, gr *Grammar) {
 	sort.Strings(kinds)
 	n := 0
 	for _, k := range kinds {
-		if k == "EOF" {
+		if k == "EOF" || strings.HasPrefix(k, "<") {
 			continue // never part of a returned tree
 		}
 		sh := nodeShapes[k]
